@@ -5,6 +5,7 @@ from concurrent.futures import ThreadPoolExecutor
 sys.path.insert(0, os.path.dirname(os.path.abspath(__file__)))
 import importlib
 mod = importlib.import_module(sys.argv[1] if len(sys.argv) > 1 else 'probes')
+os.makedirs('/tmp/probe/liveness', exist_ok=True)
 bank = []
 for (i, props, f, old, new) in mod.P:
     for p in props.split(','):
